@@ -156,8 +156,8 @@ theorem derive_spec (h : Heap) (op : DOp) : Derived h (derive h op).1 (derive h 
   cases op with
   | concat a r =>
     simp only [derive]
-    by_cases hb : h.ego r.addr = 0 ∧ h.isList r.addr = true
-    · rw [L.concat_ok h a r hb.1 hb.2]; exact Derived.append h _
+    by_cases hb : h.isList r.addr = true
+    · rw [L.concat_ok h a r hb]; exact Derived.append h _
     · rw [L.concat_bad h a r hb]; exact Derived.none_refl h
   | subList a s e =>
     simp only [derive]
